@@ -395,7 +395,8 @@ func (t *tracker) Has(id []byte, ts int64) (bool, error) {
 	defer t.lock.Unlock()
 
 	if ts >= t.list.ts+t.list.th {
-		return false, nil
+		// out of this block's window, still it may be in the window of ancestors
+		return t.parentHasInLock(id, ts)
 	}
 	if t.locators != nil {
 		if _, ok := t.locators[string(id)] ; ok {
